@@ -106,8 +106,15 @@ func (x *Exec) existsCandidates(env *Env) []*Term {
 		}
 	}
 	add(mkInt(0))
-	if len(out) > 12 {
-		out = out[:12]
+	// the value a loop counter had one step earlier / later is a common witness
+	base := append([]*Term{}, out...)
+	for _, t := range base {
+		if !t.isConst() && !strings.HasPrefix(t.name, "wit$") {
+			add(mkSub(t, mkInt(1)))
+		}
+	}
+	if len(out) > 16 {
+		out = out[:16]
 	}
 	return out
 }
@@ -126,10 +133,44 @@ func (x *Exec) evalClause(st *State, env *Env, cl *Clause) *Term {
 			}
 			evs = append(evs, v)
 		}
-		if len(evs) > 2 {
-			fail("at most two existential variables per clause")
+		if len(evs) > 3 {
+			fail("at most three existential variables per clause")
 		}
 		var alts []*Term
+		if tuples := x.witnessTuples; len(tuples) > 0 {
+			// hinted witnesses: the tuple assumed so far (ghost variables) and the given tuples
+			try := func(vals []Value) {
+				e3 := env.child()
+				for i, v := range evs {
+					e3.vars[v.name] = vals[i]
+				}
+				alts = append(alts, x.evalBool(st, e3, cl.expr))
+			}
+			var ghost []Value
+			okGhost := true
+			for _, v := range evs {
+				gv, ok := env.lookup(v.name)
+				if !ok {
+					okGhost = false
+					break
+				}
+				ghost = append(ghost, gv)
+			}
+			if okGhost {
+				try(ghost)
+			}
+			for _, tp := range tuples {
+				if len(tp) != len(evs) {
+					fail("witness tuple of %d expressions for %d existential variables", len(tp), len(evs))
+				}
+				var vals []Value
+				for _, e := range tp {
+					vals = append(vals, x.evalNum(st, env, e))
+				}
+				try(vals)
+			}
+			return mkOr(alts...)
+		}
 		var rec func(i int, e2 *Env)
 		rec = func(i int, e2 *Env) {
 			if i == len(evs) {
@@ -1334,7 +1375,9 @@ func (x *Exec) verifyContract(ct *Contract) (err error) {
 				lbl = fmt.Sprintf("%d", k)
 			}
 			s2 := f.st.fork()
+			x.witnessTuples = ct.witnesses[-1]
 			t := x.evalClause(s2, f.env, cl)
+			x.witnessTuples = nil
 			if len(ct.cases) == 0 {
 				x.oblige(s2, "post."+lbl, t, cl.text)
 				continue
